@@ -131,7 +131,17 @@ def tmpl_directory(p, f, i):
              ['dd%d/one' % i, 'dd%d/two' % i] if f else [], [] if f else ['dd%d/one' % i, 'dd%d/two' % i])
 
 
-TEMPLATES = [('exe', tmpl_exe), ('header', tmpl_header), ('header_directory', tmpl_hdrdir), ('find_files', tmpl_find),
+def tmpl_plain_strings(p, f, i):
+    """sources named by plain strings, one of them of a language that is only transpiled (lex):
+    bfg9000 wraps it in generated_source() itself"""
+    if not f:      # the dist=False variant marks the C source only
+        return T(["executable('px%d', files=[source_file('pm%d.c', dist=False), 'scan%d.l'])" % (i, i, i)],
+                 {'pm%d.c' % i: 'int main(){}\n', 'scan%d.l' % i: '%%\n'}, ['scan%d.l' % i], ['pm%d.c' % i])
+    return T(["executable('px%d', files=['pm%d.c', 'scan%d.l'])" % (i, i, i)],
+             {'pm%d.c' % i: 'int main(){}\n', 'scan%d.l' % i: '%%\n'}, ['pm%d.c' % i, 'scan%d.l' % i])
+
+
+TEMPLATES = [('exe', tmpl_exe), ('plain-string-sources', tmpl_plain_strings), ('header', tmpl_header), ('header_directory', tmpl_hdrdir), ('find_files', tmpl_find),
              ('find_platform', tmpl_find_platform), ('find_nocache', tmpl_find_nocache),
              ('extra_dist', tmpl_extra_dist), ('man_page', tmpl_man),
              ('copy_file', tmpl_copy), ('build_step-cmd-file', tmpl_step), ('build_step-files', tmpl_step_files),
@@ -230,7 +240,7 @@ def _shard(arg):
     for backend, items in cases:
         shutil.rmtree(root, ignore_errors=True)
         files, dist, nodist = build_program(items)
-        pr = proj.Proj(os.path.join(root, 'p'), backend, files, files['build.bfg'])
+        pr = proj.Proj(os.path.join(root, 'p'), backend, files, files['build.bfg'], extra_env={'LEX': 'rec'})
         os.remove(os.path.join(pr.bin, 'doppel'))
         label = dict(backend=backend, items=[list(i) for i in items])
         r, opened = audited_configure(pr)
